@@ -386,6 +386,7 @@ func (s *registrationServiceImpl) TurnOff() {
 // CancelFlows cancels init and invoke flows with error.
 func (s *registrationServiceImpl) CancelFlows(err error) {
 	verifhook.Point("registrations.cancelFlows")
+	defer verifhook.Point("registrations.flowsCancelled")
 	s.mutex.Lock()
 	defer s.mutex.Unlock()
 	// The following block protects us from overwriting the error
